@@ -243,7 +243,16 @@ Next ==
 
 \* simulation: one action per kind (see spec/TaskQueue), failures less likely than successes
 S(x) == IF nextId >= 0 THEN x ELSE {}
+\* another reader of a hook's snapshots - the debug endpoint, an admission or conversion hook with includeSnapshotsFrom -
+\* while some binding of the hook still holds events back for its Synchronization: it changes nothing, in particular not
+\* what is held back (only the Synchronization run drops saved events). Generated in simulation only.
+DebugRead(i) ==
+  /\ ~down
+  /\ \E j \in DOMAIN Hooks[i].kube : LET p == <<Hooks[i].name, Hooks[i].kube[j].name>> IN mstate[p] = "started" /\ buffered[p] > 0
+  /\ UNCHANGED <<queues, run, backoff, nextId, schedOn, nev, ntick, nfail, mstate, buffered, nobj, down, log, discarded>>
+
 SimNext ==
+  \/ \E i \in S(HookIdx) : (DebugRead(i) /\ act' = <<"DebugRead", Hooks[i].name>>)
   \/ \E q \in S(AllQueues) : (Pick(q) /\ act' = <<"Pick", q>>)
   \/ \E q \in S(AllQueues) : (BackoffElapsed(q) /\ act' = <<"BackoffElapsed", q>>)
   \/ \E q \in S(AllQueues) : (Finish(q, TRUE) /\ act' = <<"Finish", q, TRUE>>)
